@@ -147,7 +147,7 @@ func process(name, origin, src string, seed uint64, work string, ncases int, goe
 	sharedFns := map[string]string{}
 	res.SameAs = map[string]string{}
 	for _, fm := range forms {
-		prog := ir.NewProgram(fset, fm.Mode|ir.BareInits)
+		prog := ir.NewProgram(fset, fm.Mode|ir.BareInits|ir.InstantiateGenerics)
 		p := prog.CreatePackage(pkg, files, info, true)
 		p.Build()
 		s := newSer(tb, prog, p)
